@@ -332,6 +332,32 @@ theorem mcheck_is_store (s : Store) (id : String) (n now : Int) (hn : 0 < n) :
       · simp [hv]
       · simp [hv]
 
+/-- **the time-to-live the badger code asks for keeps the entry at least until the nonce is stale**, whatever the
+nonce's date relative to the store's clock and however badger's whole-second rounding falls: the hypothesis of
+`ttl_safe` is discharged by the code's own arithmetic -/
+theorem badger_entry_outlives_nonce (w nonce now0 now1 : Int) (h : now0 ≤ now1) :
+    nonce + w ≤ badgerExp w nonce now0 now1 := by
+  unfold badgerExp badgerTtl second
+  by_cases ha : nonce - now0 > 0 <;> simp only [ha, if_true, if_false] <;> omega
+
+/-- without the one-second slack the entry can vanish while the nonce is still fresh (the seeded change
+`C05-ttl-noslack`): a replay in that gap is accepted -/
+theorem no_slack_counterexample :
+    ∃ w nonce now0 now1, now0 ≤ now1 ∧ noSlackExp w nonce now0 now1 < nonce + w := by
+  refine ⟨2000000000, 500000000, 500000000, 500000000, by omega, ?_⟩
+  decide
+
+/-- for every history whose entries carry the expiry the badger code asks for, the badger nonce table gives the
+verdicts of the table that never forgets (the memory driver, the contract) -/
+theorem badger_nonce_verdicts (w : Int) (xs : List ESub)
+    (hexp : ∀ x ∈ xs, ∃ now1, x.now ≤ now1 ∧ x.exp = badgerExp w x.nonce x.now now1) :
+    (erun w [] xs).2 = (mrun w [] xs).2 := by
+  apply ttl_safe w [] [] xs (by intro id; simp [Sim])
+  intro x hx
+  obtain ⟨now1, h1, h2⟩ := hexp x hx
+  rw [h2]
+  exact badger_entry_outlives_nonce w x.nonce x.now now1 h1
+
 theorem sim_empty (w : Int) : Sim w [] [] := by intro id; simp
 
 /-- the pre-repair behaviour (entry expiring `window` after it was *saved*): a future-dated nonce is
